@@ -87,7 +87,7 @@ def _collide_hook(draw, cx, root):
 
 @st.composite
 def c08_case(draw):
-    root, feat = draw(families.any_document_ast(["gradient", "gradient-many", "gradient+stroke", "stroke", "structural", "mixed", "cascade"]))
+    root, feat = draw(families.any_document_ast(["gradient", "gradient-many", "gradient+stroke", "gradient+stroke", "stroke", "structural", "mixed", "cascade"]))
     if draw(st.integers(0, 5)) == 0:
         # "fading" group: opacities that are individually visible but whose product rounds to 0, next to content that
         # is invisible by itself - the group is first kept, then loses children to pruning and is dissolved
@@ -114,10 +114,10 @@ def c08_case(draw):
                 g["c"].insert(draw(st.integers(0, len(g["c"]))), docs.node("rect", {"width": "10", "height": "10", draw(st.sampled_from(["fill", "display"])): "none"}))
             feat = feat + ["fading-group"]
     r = draw(st.integers(0, 9))
-    if r <= 1:
-        # a root without viewBox (r == 0: without any size at all, r == 1: width/height instead) is accepted too
+    if r <= 2:
+        # a root without viewBox (r <= 1: without any size at all, r == 2: width/height instead) is accepted too
         vb = root["a"].pop("viewBox").split()
-        if r == 1:
+        if r == 2:
             root["a"]["width"], root["a"]["height"] = vb[2], vb[3]
         feat = feat + ["root-no-viewbox"]
     # id collisions: rename existing ids to names picosvg likes to generate
